@@ -468,16 +468,59 @@ class Nets:
 SELS = {"I": "INSIDE", "O": "OUTSIDE", "B": "BOTH", "A": "ALL"}
 
 
+class QueryTimeout(Exception):
+    pass
+
+
+QUERY_LIMIT_S = 10.0
+_WATCHDOG = {"on": False, "timeouts": 0}
+
+
+class TooManyTimeouts(Exception):
+    pass
+
+
+def _on_query_alarm(signum, frame):
+    raise QueryTimeout()
+
+
+def arm_watchdog():
+    """only inside pool workers (the main process keeps its own SIGALRM hard timeout)"""
+    import multiprocessing
+    import signal
+    if multiprocessing.current_process().name != "MainProcess":
+        signal.signal(signal.SIGALRM, _on_query_alarm)
+        _WATCHDOG["on"] = True
+
+
+def timed(thunk):
+    """run one call into the implementation; a call that does not return within QUERY_LIMIT_S is
+    reported as an outcome of its own (`timeout`) instead of stalling the whole check"""
+    if not _WATCHDOG["on"]:
+        return thunk()
+    import signal
+    signal.setitimer(signal.ITIMER_REAL, QUERY_LIMIT_S)
+    try:
+        return thunk()
+    finally:
+        signal.setitimer(signal.ITIMER_REAL, 0)
+
+
 def impl_query(sdn, f, obj, rec, sel, ids):
     fn = {"hinst": sdn.get_hinstances, "hport": sdn.get_hports, "hpin": sdn.get_hpins,
           "hcable": sdn.get_hcables, "hwire": sdn.get_hwires}[f]
     kw = {"recursive": rec}
     if f in ("hcable", "hwire"):
         kw["selection"] = SELS[sel]
+    if _WATCHDOG["timeouts"] >= 3:
+        raise TooManyTimeouts()
     try:
-        res = list(fn(obj, **kw))
+        res = timed(lambda: list(fn(obj, **kw)))
     except RecursionError:
         raise
+    except QueryTimeout:
+        _WATCHDOG["timeouts"] += 1
+        return {"exc": "timeout"}, []
     except Exception as e:  # noqa
         return {"exc": exc_family(e)}, []
     return sorted(path_of(h, ids) for h in res), res
@@ -690,7 +733,10 @@ def check_c11(res, sess, recipe, rng, tier_scale, edits=None, tag="gen"):
     href_roots = []
     for f, fn in (("hinst", sdn.get_hinstances), ("hport", sdn.get_hports), ("hpin", sdn.get_hpins),
                   ("hcable", sdn.get_hcables), ("hwire", sdn.get_hwires)):
-        href_roots.extend(fn(b.nl, recursive=True))
+        try:
+            href_roots.extend(timed(lambda: list(fn(b.nl, recursive=True))))
+        except Exception as e:  # noqa  (reported by the per-query comparison below)
+            res.dist("c11.netlist-query-failed." + type(e).__name__)
     href_roots.append(HRef.from_parent_and_item(None, b.nl.top_instance))
     # a few invalid / ill-kinded references
     if b.defs and elab.inst_paths:
@@ -776,7 +822,11 @@ def check_c11(res, sess, recipe, rng, tier_scale, edits=None, tag="gen"):
         av, au, an = ans[3 * n], ans[3 * n + 1], ans[3 * n + 2]
         inp = dict(inp_base, href=list(k))
         res["evaluations"] += 1
-        iv, iu = bool(h.is_valid), bool(h.is_unique)
+        try:
+            iv, iu = timed(lambda: (bool(h.is_valid), bool(h.is_unique)))
+        except QueryTimeout:
+            res.spec_failure("HRef.is_valid-or-is_unique.does-not-return", inp, "no answer within %ss" % QUERY_LIMIT_S)
+            continue
         ev = k in valid_set
         eu = ev and len(elab.ends.get(k[0], [])) == 1
         usig = unique_sig(elab, k, iu, eu)
@@ -855,7 +905,10 @@ def check_c11(res, sess, recipe, rng, tier_scale, edits=None, tag="gen"):
                 inp = {"recipe": recipe, "edits": [list(x) for x in done], "href": list(k)}
                 res["evaluations"] += 1
                 try:
-                    iv, iu = bool(h.is_valid), bool(h.is_unique)
+                    iv, iu = timed(lambda: (bool(h.is_valid), bool(h.is_unique)))
+                except QueryTimeout:
+                    res.spec_failure("HRef.is_valid-or-is_unique.after-edit.does-not-return", inp, "")
+                    continue
                 except Exception as e:  # noqa
                     res.spec_failure("HRef.is_valid-after-edit.raises-" + exc_family(e), inp, "")
                     continue
@@ -927,8 +980,15 @@ def check_c12(res, sess, recipe, rng, tier_scale, tag="gen", only=None):
     res.dist("c12.nets-spanning>=3-levels" if deep else "c12.nets-spanning<3-levels")
     res.sample({"recipe_defs": len(recipe["defs"]), "hwires": len(nets.parent), "nets": len(nets.classes),
                 "multi_wire_nets": multi, "tag": tag})
-    starts = {"hwire": list(sdn.get_hwires(b.nl, recursive=True)), "hpin": list(sdn.get_hpins(b.nl, recursive=True)),
-              "hcable": list(sdn.get_hcables(b.nl, recursive=True)), "hport": list(sdn.get_hports(b.nl, recursive=True))}
+    from spydrnet.util.hierarchical_reference import HRef as _H
+
+    def _all(kind):
+        # start references are built from the independent enumeration (not from the code under test)
+        out = []
+        for k in elab.by_kind[kind]:
+            out.append(_H.from_sequence([ids.keep[i] for i in reversed(k)]))
+        return out
+    starts = {"hwire": _all("hwire"), "hpin": _all("hpin"), "hcable": _all("hcable"), "hport": _all("hport")}
     cap = tier_scale[0]
     work = []   # (start kind, root object, root json, occurrence keys of the start item)
     for kind, lst in starts.items():
@@ -1222,6 +1282,7 @@ def _shard(pid, seed, idx, n_cases, tier, t_budget, items=None):
     res = shard.ShardResult()
     rng = random.Random(stable_hash([seed, pid, "shard", idx]))
     t_end = time.time() + t_budget
+    arm_watchdog()
     sess = Session()
     try:
         if items is not None:
@@ -1240,6 +1301,10 @@ def _shard(pid, seed, idx, n_cases, tier, t_budget, items=None):
                 _run_one(pid, res, sess, it, rng, tier)
         if res["spec"]:
             _shrink_failures(pid, res, sess, rng, tier, time.time() + 40)
+    except TooManyTimeouts:
+        # three calls into the implementation did not return: they are reported as spec failures
+        # (`…raises-timeout`); the rest of this shard is skipped rather than waited for
+        res.dist("shard-cut-after-3-query-timeouts")
     finally:
         sess.close()
     gc.collect()
@@ -1303,11 +1368,13 @@ def run(ctx):
         if "recipe" in inp:
             items = [{"recipe": inp["recipe"], "edits": [e[:-1] if e and isinstance(e[-1], str) else e
                                                          for e in inp.get("edits", [])] or None, "tag": "replay"}]
-        ctx.merge_shard(shard._wrap((_shard, (pid, ctx.seed, 0, 0, ctx.tier, 120, items))))
+        shard.run_shards(ctx, _shard, [(pid, ctx.seed, 0, 0, ctx.tier, 120, items), (pid, ctx.seed, 1, 0, ctx.tier, 120, [])])
         return
     corpus = _corpus_items(pid)
     if corpus:
-        ctx.merge_shard(shard._wrap((_shard, (pid, ctx.seed, 999, 0, ctx.tier, 120, corpus))))
+        half = (len(corpus) + 1) // 2
+        parts = [corpus[:half], corpus[half:]] if len(corpus) > 1 else [corpus, []]
+        shard.run_shards(ctx, _shard, [(pid, ctx.seed, 999 + i, 0, ctx.tier, 120, part) for i, part in enumerate(parts)])
     nshards = 16
     per = ctx.scale(6, 60) if pid == "C11" else ctx.scale(8, 80)
     budget = ctx.scale(45, 700)
